@@ -52,6 +52,7 @@ PeerInit(NP, N, spec) ==
     issued |-> [q \in 0..N-1 |-> {}],     \* handshake nonces sent to q and not yet answered
     matched |-> [q \in 0..N-1 |-> 0],     \* replies of q that answered an issued nonce (round trips)
     lb |-> 0, rb |-> 0, haveStats |-> FALSE,   \* last network_stats: local / remote frames behind
+    pend |-> [h \in 0..NP-1 |-> -1],    \* pending_local_inputs: the input registered for the next frame (-1 = none)
     lastStall |-> FALSE,                \* the previous advance_frame call did not advance (inputs stay registered)
     gcount |-> 0,                       \* simulations of the glitch frame so far
     glitchCall |-> -1,                  \* number of the call in which the game's glitch fired
@@ -130,6 +131,15 @@ ApplyIns(tr, ins, adds, u) ==
                    Tail(ins), IF adds = <<>> THEN <<>> ELSE Tail(adds), u)
 
 ---------------------------------------------------------------------------
+\* add_local_input calls of a line: the latest accepted value per handle stays pending until a frame advances
+RECURSIVE PendAdd(_, _, _)
+PendAdd(pend, ins, adds) ==
+  IF ins = <<>> THEN pend
+  ELSE LET h == ins[1][1]
+           ok == adds # <<>> /\ adds[1] = "ok" /\ h \in DOMAIN pend
+       IN PendAdd(IF ok THEN [pend EXCEPT ![h] = ins[1][2]] ELSE pend, Tail(ins),
+                  IF adds = <<>> THEN <<>> ELSE Tail(adds))
+
 \* Checks on one AdvanceFrame request of a P2P session.
 \* gg: ghost, p: peer, pe: peer ghost (walk accumulator), f: frame, ins, r: line
 RECURSIVE AdvH(_, _, _, _, _, _, _)
@@ -312,7 +322,14 @@ TickP2P(gg, r) ==
       pe0 == gg.pr[p]
       ok  == r.r = "ok"
       \* submissions count only when advance_frame got past its guards
-      g1  == IF ok THEN [gg EXCEPT !.truth = ApplyIns(@, Get(r, "in", <<>>), Get(r, "add", <<>>), r.cur0)]
+      \* what is registered: every local player's pending input (it may stem from an earlier call that
+      \* failed with NotSynchronized / InvalidRequest or that stalled)
+      locals == {h \in 0..gg.NP-1 : gg.owner[h] = p}
+      pend1 == PendAdd(pe0.pend, Get(r, "in", <<>>), Get(r, "add", <<>>))
+      have  == \A h \in locals : pend1[h] >= 0
+      regIns == LET hs == SelectSeq([i \in 1..gg.NP |-> i - 1], LAMBDA h : h \in locals /\ pend1[h] >= 0)
+                IN [i \in 1..Len(hs) |-> <<hs[i], pend1[hs[i]]>>]
+      g1  == IF ok THEN [gg EXCEPT !.truth = ApplyIns(@, regIns, [i \in 1..Len(regIns) |-> "ok"], r.cur0)]
              ELSE gg
       acc0 == [pe |-> HeardUpdate(pe0, r, gg.N), vs |-> <<>>, nA |-> 0, nL |-> 0, depth |-> 0,
                nNew |-> 0, nPred |-> 0, nDisc |-> 0, nCorr |-> 0]
@@ -326,9 +343,12 @@ TickP2P(gg, r) ==
                   V("C15", r.n, "frames-ahead-differs-from-the-real-lead", <<p, r.fa, lead>>))
              \o When(tsOn /\ (r.fa + gg.pr[other].fa > 2 \/ r.fa + gg.pr[other].fa < -2),
                      V("C15", r.n, "frames-ahead-of-the-two-peers-do-not-cancel", <<p, r.fa, gg.pr[other].fa>>))
-      expV == When(Has(r, "expect") /\ ~(\E i \in 1..Len(r.expect) : r.expect[i] = r.r)
-                     /\ ~(r.r = "ok" /\ pe0.lastStall),
-                   V("C16", r.n, "misuse-not-rejected-as-documented", <<p, r.a, r.r, r.expect>>))
+      expV == When(ok /\ ~have /\ ~gg.isSync[p],
+                   V("C16", r.n, "advanced-although-a-local-input-is-missing", <<p, pend1>>))
+              \o When(r.r = "E:InvalidRequest" /\ have /\ ~gg.isSync[p],
+                      V("C16", r.n, "invalid-request-although-all-local-inputs-are-registered", <<p, pend1>>))
+              \o When(r.r = "E:InvalidRequest" /\ ~pe0.run /\ ~r.run /\ ~gg.isSync[p],
+                      V("C16", r.n, "missing-input-reported-before-not-synchronized", <<p>>))
       syncV == IF ~gg.isSync[p] THEN <<>>
                ELSE IF r.r = "E:MismatchedChecksum" THEN
                       When(gg.glitchFrame = -1,
@@ -366,7 +386,8 @@ TickP2P(gg, r) ==
       finV == IF ok /\ r.run THEN FinalF(g1, p, pe1, pe1.ver + 1, hi, r) ELSE <<>>
       ver1 == IF ok /\ r.run THEN Max2(pe1.ver, hi) ELSE pe1.ver
       lo   == Min2(ver1 + 1, r.cur - gg.W - 2) - 1
-      pe2  == [pe1 EXCEPT !.ncalls = IF gg.isSync[p] THEN @ + 1 ELSE @,   \* (only sync tests need it; unbounded otherwise)
+      pe2  == [pe1 EXCEPT !.pend = IF ok /\ acc.nNew >= 1 THEN [h \in 0..gg.NP-1 |-> -1] ELSE pend1,
+                          !.ncalls = IF gg.isSync[p] THEN @ + 1 ELSE @,   \* (only sync tests need it; unbounded otherwise)
                           !.lastStall = ok /\ acc.nNew = 0,
                           !.glitchCall = IF @ = -1 /\ Get(r, "glitched", FALSE) THEN pe0.ncalls + 1 ELSE @,
                           !.mismatch = @ \/ r.r = "E:MismatchedChecksum",
@@ -558,7 +579,9 @@ OtherPeerLine(gg, r) ==
       isPanic == IsPanic(r.r)
       g1 == IF r.a = "dly" /\ r.r = "ok" /\ r.h \in DOMAIN gg.truth
             THEN [gg EXCEPT !.truth[r.h] = SetDelay(@, r.d)] ELSE gg
-      g2a == IF Has(r, "st") THEN [g1 EXCEPT !.pr[p].stat = [h \in 0..gg.NP-1 |-> r.st[h+1]]] ELSE g1
+      g1b == IF r.a = "addonly" /\ ~gg.isSpec[p]
+             THEN [g1 EXCEPT !.pr[p].pend = PendAdd(@, Get(r, "in", <<>>), Get(r, "add", <<>>))] ELSE g1
+      g2a == IF Has(r, "st") THEN [g1b EXCEPT !.pr[p].stat = [h \in 0..gg.NP-1 |-> r.st[h+1]]] ELSE g1b
       \* an explicit disconnect_player ends the life cycle of that address without any event
       dq == IF r.a = "disc" /\ r.r = "ok"
             THEN IF r.h < gg.NP THEN gg.owner[r.h]
